@@ -827,6 +827,25 @@ fn dump_crate<'tcx>(tcx: TyCtxt<'tcx>, name: &str, out: &str) {
                         o.set("bytes", J::Arr(b.iter().map(|x| J::Int(*x as i128)).collect()));
                     } else if let Some(b) = const_raw_pointee(tcx, val, ty) {
                         o.set("raw", J::Arr(b.iter().map(|x| J::Int(*x as i128)).collect()));
+                    } else if let ty::Array(..) = ty.kind() {
+                        // an array constant of plain scalars (`const SHIFTS: [usize; 4] = [12, 8, 4, 0]`): its elements
+                        if let Some(d) = tcx.try_destructure_mir_constant_for_user_output(val, ty) {
+                            let mut es = Vec::new();
+                            for (fv, fty) in d.fields.iter() {
+                                if let Some(si) = fv.try_to_scalar_int() {
+                                    let size = si.size();
+                                    let bits = si.to_bits(size);
+                                    let v: i128 = match fty.kind() {
+                                        ty::Int(_) => size.sign_extend(bits) as i128,
+                                        _ => bits as i128,
+                                    };
+                                    es.push(J::Int(v));
+                                } else {
+                                    es.push(J::Null);
+                                }
+                            }
+                            o.set("elems", J::Arr(es));
+                        }
                     } else if let ty::Adt(adt, _) = ty.kind() {
                         // an enum / struct constant of plain scalars: variant name and scalar fields
                         if let Some(d) = tcx.try_destructure_mir_constant_for_user_output(val, ty) {
